@@ -2,13 +2,54 @@
 from common import *
 
 RULE = ("revcomp: every string over the 15 IUPAC codes, upper case to length L1 and mixed case to length L2 "
-        "(exhaustive), then random strings (log-uniform length to 10^4, random case); variants: every string over "
-        "the 15 codes to length L3 (exhaustive), random strings whose expansion has at most 4096 (some up to 10^6 in the thorough tier) readings, and strings with more than MaxInt32 readings (which must be refused with an error). "
+        "(exhaustive), then random strings (log-uniform length to 10^4, random case, exact / near / odd-centre palindromes); variants: every string over "
+        "the 15 codes to length L3 (exhaustive); random short strings (to 40 letters) with at most 4096 readings; strings with 10^4..10^5 readings "
+        "(N^7, N^8, (NNK)^3, random; thorough: to 2*10^6, N^10); long mostly-concrete strings (10^3..10^4 letters with at most 8 readings, "
+        "10^4 letters with 24 readings, 200..10^4 letters with up to 6 (thorough 9) ambiguity codes at random positions); strings with more than "
+        "MaxInt32 readings (must be refused with an error); three deliberate inputs the check cannot enumerate but the code would try to "
+        "(N^12, N^15, (nB)^7: not submitted to the code, class too-large, not judged). The generator never emits such an input by accident. "
         "non-trivial = revcomp input of length >= 2 / variants input with at least one ambiguity code; distinct by case text")
 EXHAUSTIVE = {"quick": False, "thorough": True}
 TRUSTED_BASE = ["Spec/Nucleotide.lean: IUPAC code sets typed from the IUPAC-IUB nomenclature",
-                "ASCII restriction: Go rune/byte behaviour on non-ASCII input is outside the model"]
-ASSUMPTIONS = ["inputs are ASCII"]
+                "ASCII restriction: Go rune/byte behaviour on non-ASCII input is outside the model",
+                "the judge's predicates are proved to be the statement of the theorems: isExpansion_iff (all read + no repeat + right count "
+                "<=> duplicate-free and exactly the set of readings), judge_allDistinct_iff (merge sort + neighbours <=> Nodup), inDomain_iff",
+                "canEnumerate (at most 2*10^6 readings and 3*10^7 letters) is a parameter of the CHECK: below it the full expansion is demanded "
+                "(a refusal is a FAIL whatever the count - no threshold is taken from the code), above it a reply must be a refusal; "
+                "the harness does not call the code for a non-enumerable input with at most MaxInt32 readings (harnessCallsAbove, a safety "
+                "parameter placed at the code's present guard), so a guard moved within (2*10^6, MaxInt32] is seen only from above (N^15 R = 2^31 must be refused)"]
+ASSUMPTIONS = ["inputs are ASCII",
+               "the model (allVariants = some ... up to MaxInt32 readings) assumes memory for up to MaxInt32 x len runes; the real code dies "
+               "of memory exhaustion long before, and nothing is observed between the check's enumeration cap and MaxInt32"]
+PARTIAL = ["expansion clause ('returns each concrete sequence exactly once and nothing else'): proved for inputs with at most MaxInt32 readings "
+           "(variants_exact); above, the code refuses with an error (variants_too_many) - the literal clause cannot hold there, the list cannot be "
+           "built; the property text states no bound, MaxInt32 is the code's own (fix fce67c5)"]
+
+import math
+SIZE = {"A": 1, "C": 1, "G": 1, "T": 1, "R": 2, "Y": 2, "S": 2, "W": 2, "K": 2, "M": 2, "B": 3, "D": 3, "H": 3, "V": 3, "N": 4}
+MAXINT32 = 2147483647
+
+def count_readings(w):
+    n = 1
+    for c in w.upper():
+        n *= SIZE[c]
+    return n
+
+def can_enumerate(w):
+    """the same predicate as Driver/C11.lean `canEnumerate` and the harness op"""
+    n = count_readings(w)
+    return n <= 2000000 and n * (len(w) + 1) <= 30000000
+
+def enumerable_or_refused(r, w):
+    """never emit by accident an input the check cannot enumerate but the code would try to (up to terabytes):
+    make ambiguity letters concrete, from the end, until the input is enumerable"""
+    w = list(w)
+    i = len(w) - 1
+    while not can_enumerate("".join(w)) and count_readings("".join(w)) <= MAXINT32 and i >= 0:
+        if SIZE[w[i].upper()] > 1:
+            w[i] = r.choice(ACGT).lower() if w[i].islower() else r.choice(ACGT)
+        i -= 1
+    return "".join(w)
 
 def cases(seed, tier):
     r = rng(seed, "C11")
@@ -39,39 +80,83 @@ def cases(seed, tier):
         elif kind < 0.45:   # odd length with a self-complementary centre
             w = w + r.choice("SWNswn") + "".join(comp[c] for c in reversed(w))
         yield ["revcomp", w]
-    size_of = {"A":1,"C":1,"G":1,"T":1,"N":4,"B":3,"D":3,"H":3,"V":3}
+    # ---- expansions.  Every generated input is either enumerable by this check (canEnumerate: at most
+    # 2*10^6 readings and 3*10^7 letters in all, the same predicate as Driver/C11.lean and the harness),
+    # or has more than MaxInt32 readings (must be refused), or is one of the three DELIBERATE
+    # not-enumerable-but-below-MaxInt32 inputs at the end (the harness does not call the code for those).
     cap = 4096 if tier == "quick" else 200000
     for i in range(n):
         k = r.randint(1, 14 if i % 10 else 40)
         w, total = "", 1
         for _ in range(k):
             c = r.choice(IUPAC15 if r.random() < 0.5 else ACGT)
-            size = size_of.get(c, 2)
+            size = SIZE[c]
             if total * size > (cap if i % 50 == 0 else 4096):
                 c, size = r.choice(ACGT), 1
             total *= size
             w += c
-        yield ["variants", randcase(r, w)]
-    # expansions that cannot be enumerated (more than MaxInt32 readings): the code must refuse with an error.
-    # (Counts between 2*10^6 and MaxInt32 are never generated: they are legal but need tens of gigabytes.)
-    for w in ["N" * 16, "N" * 31, "N" * 32, "N" * 33, "NNK" * 22, "R" * 32, "R" * 64, "ACGT" + "N" * 40 + "ACGT",
-              "B" * 20, "B" * 41, "n" * 64, "N" * 1000, "NB" * 9 + "ACGT"]:
+        yield ["variants", enumerable_or_refused(r, randcase(r, w))]
+    # large expansions, also in the quick tier: 10^4 .. 10^5 readings (thorough: to 2*10^6)
+    for w in ["N" * 7, "N" * 8, "NNK" * 3, "nnk" * 3 + "r", "B" * 9, "RYSWKM" * 2 + "RYSW"]:
+        yield ["variants", w]
+    hi = 100000 if tier == "quick" else 2000000
+    for _ in range(6 if tier == "quick" else 24):
+        target = int(math.exp(r.uniform(math.log(10000), math.log(hi))))
+        w, total = "", 1
+        while True:
+            c = r.choice("NBDHVRYKMSW")
+            if total * SIZE[c] > target: break
+            total *= SIZE[c]; w += c
+            if r.random() < 0.3: w += r.choice(ACGT)
+        yield ["variants", enumerable_or_refused(r, randcase(r, w))]
+    if tier == "thorough":
+        yield ["variants", "N" * 10]          # 1 048 576 readings
+    # long, mostly concrete inputs (the property: random to length 10^4): few ambiguity codes at random positions
+    def sprinkle(length, codes):
+        w = list(randword(r, ACGT, length))
+        for c, pos in zip(codes, r.sample(range(length), len(codes))):
+            w[pos] = c
+        return randcase(r, "".join(w))
+    for _ in range(12 if tier == "quick" else 150):
+        length = loglen(r, 1000, 10000)
+        bits = r.randint(0, 3)                # at most 8 readings
+        yield ["variants", sprinkle(length, [r.choice("RYSWKM") for _ in range(bits)])]
+    w = list(randword(r, ACGT, 10000)); w[17], w[5000], w[9999] = "N", "R", "B"   # 24 readings, 10^4 letters
+    yield ["variants", "".join(w)]
+    for _ in range(3 if tier == "quick" else 30):
+        length = loglen(r, 200, 10000)
+        codes = [r.choice("NBDHVRYKMSW") for _ in range(r.randint(1, 9))] if tier == "thorough" else \
+                [r.choice("RYSWKMB") for _ in range(r.randint(1, 6))]
+        yield ["variants", enumerable_or_refused(r, sprinkle(length, codes))]
+    # expansions that cannot be enumerated by anybody (more than MaxInt32 readings): the code must refuse with an error.
+    for w in ["N" * 16, "N" * 31, "N" * 32, "N" * 33, "NNK" * 22, "R" * 31, "R" * 32, "R" * 64, "ACGT" + "N" * 40 + "ACGT",
+              "B" * 20, "B" * 41, "n" * 64, "N" * 1000, "NB" * 9 + "ACGT", "N" * 15 + "R"]:
         yield ["variants", w]
     for _ in range(20 if tier == "quick" else 300):
         k = r.randint(16, 200)
-        yield ["variants", randcase(r, randword(r, "NBDHVRYKMSW", k))]
+        w = randword(r, "NBDHVRYKMSW", k)
+        while count_readings(w) <= MAXINT32:   # force it above MaxInt32 (never into the band below)
+            w += r.choice("NBDHV")
+        yield ["variants", randcase(r, w)]
+    # deliberately NOT enumerable yet below MaxInt32: the harness must not call the code (reply too-large, not judged)
+    for w in ["N" * 12, "N" * 15, "nB" * 7]:
+        yield ["variants", w]
     # out-of-domain probes (not judged; model drift is reported only as information)
     for w in ["U", "u", "ACGU", "X", "acgtz", "A-C", "AC GT", "1"]:
         yield ["revcomp", w]
         yield ["variants", w]
 
 TECHNIQUE = "Lean 4 proof over a model whose lookup tables are regenerated from the code; decide on the full tables, induction over strings; differential correspondence"
-LEVEL_TEXT = ("All clauses are kernel-checked theorems for strings of every length over the 15 codes in either case "
-              "(rc_length, rc_case, rc_eq_reverse_of_complement, rc_rc, rc_append, palindromic_iff, rc_spec, variants_exact, "
-              "variants_concrete, variants_rc). The two lookup tables the theorems rest on are re-extracted from the compiled "
+LEVEL_TEXT = ("Kernel-checked theorems for strings of every length over the 15 codes in either case: rc_length, rc_case (lower and upper), "
+              "rc_eq_reverse_of_complement and palindromic_iff (both hold by definition of the model: Go's ReverseComplement IS map-then-fill-backwards "
+              "and IsPalindromic IS s == ReverseComplement(s)), rc_rc, rc_append, rc_spec, variants_concrete, variants_rc. The expansion clause is "
+              "variants_exact for inputs with at most MaxInt32 readings (the guard of the code) and variants_too_many (an error, never an empty or "
+              "partial list) above. The judge's predicates are proved equal to the theorems' statements (isExpansion_iff, judge_allDistinct_iff, "
+              "inDomain_iff, variants_pass_judge). The two lookup tables the theorems rest on are re-extracted from the compiled "
               "code over the whole rune domain on every run and the table lemmas are re-decided, so a changed table entry "
               "breaks a proof obligation; the three algorithms (reverse, map, odometer product) are tied by correspondence "
-              "(exhaustive to length 5 / 3 mixed case / 4 for expansion in the thorough tier, random to 10^4), including output order.")
+              "(exhaustive to length 5 / 3 mixed case / 4 for expansion in the thorough tier, random to 10^4 letters, expansions to 10^5 "
+              "(thorough 2*10^6) readings), including output order.")
 LEVEL_NOTE = ("Trusted: Lean kernel; extractor and correspondence harness; the IUPAC code-set spec typed by hand; "
               "Go's strings.Map / range / ToUpper modelled on ASCII only.")
 
